@@ -7,8 +7,8 @@
    Gen/NormPathGen.v, and the matchlab correspondence (exhaustive short paths). *)
 From Coq Require Import List String Ascii Bool Arith ZArith.
 Import ListNotations.
-From ClasticV Require Import Base.Py Base.Strs Base.Rx Gen.RouteLex Gen.NormPathGen Model.Pattern Model.Match
-     Proofs.MatchProofs.
+From ClasticV Require Import Base.Py Base.Strs Base.Rx Gen.RouteLex Gen.NormPathGen Model.Pattern Model.Match Model.RouteRx Model.Backtrack
+     Proofs.MatchProofs Proofs.RouteRxProofs Proofs.IntLexProofs Proofs.BacktrackProofs.
 Local Open Scope string_scope.
 Local Open Scope list_scope.
 
@@ -17,7 +17,7 @@ Theorem C05_op_tables :
   OP_ARITY = [("", false); ("*", true); ("+", true); (":", false); ("?", false)] /\
   OP_OPTIONALITY = [("", false); ("*", true); ("+", false); (":", false); ("?", true)] /\
   SEG_TMPL = "(?P<{name}>({sep}{pattern}){arity})" /\
-  COMPILE_CONSTS = ["/"; "//"; "/+"; "/"; "/"; "name"; "type"; "op"; ":"; ""; "unicode"; "^"; "/*"; "$"] /\
+  COMPILE_CONSTS = ["/"; "//"; "/+"; "/"; "/"; "name"; "type"; "op"; ":"; ""; "unicode"; "^"; "/*"; "\Z"] /\
   map (fun x => fst (fst x)) TYPE_TABLE = ["int"; "float"; "str"; "unicode"].
 Proof. repeat split; reflexivity. Qed.
 Print Assumptions C05_op_tables.
@@ -150,4 +150,71 @@ Example C05_example :
   parse_pattern "/a/<x>/<x>" = Raise "InvalidPattern" /\
   parse_pattern "/a/<x*?int>" = Raise "InvalidPattern" /\
   parse_pattern "/a/<x:integer>" = Raise "InvalidPattern".
+Proof. eexists. split; [vm_compute; reflexivity|]. vm_compute. repeat split; reflexivity. Qed.
+
+(* regex_language (pending since section 6): the regular expression _compile_path_pattern assembles - Model/RouteRx.route_rx,
+   whose tree is compared on every run with Python's own parse of BoundRoute.regex.pattern - matches a WHOLE path
+   exactly when the path's slash-separated segments can be assigned, in order, to the pattern's elements (the
+   property's own words: `assign`), with exactly the pattern's slashes in strict mode.  For every pattern the model
+   accepts, both slash modes, every path (any length, any bytes). *)
+Theorem C05_regex_language : forall s p m path, parse_pattern s = Ok p ->
+  (rx_match (route_rx m p) path = true <->
+   exists ts tr caps, tokenise path = Some (ts, tr) /\ mode_ok m p ts tr = true /\ assign (p_elems p) ts caps).
+Proof. exact regex_language. Qed.
+Print Assumptions C05_regex_language.
+
+(* ... and the derivative matcher run on that expression IS the token-level matcher's acceptance *)
+Theorem C05_regex_is_token_matcher : forall s p m path, parse_pattern s = Ok p ->
+  rx_match (route_rx m p) path = accepts m p path.
+Proof. intros s p m path H. apply route_rx_decides. eapply parse_pat_ok; eauto. Qed.
+Print Assumptions C05_regex_is_token_matcher.
+
+Example C05_regex_example :
+  exists p, parse_pattern "/a/<x?int>/<rest+>/" = Ok p /\ pat_ok p = true /\
+  rx_match (route_rx MTolerant p) "/a/5/b//c/" = true /\ rx_match (route_rx MStrict p) "/a/5/b//c/" = false /\
+  rx_match (route_rx MStrict p) "/a/5/b/" = true /\ rx_match (route_rx MStrict p) "/a/5/b" = false /\
+  rx_match (route_rx MTolerant p) "/a" = false.
+Proof. eexists. split; [vm_compute; reflexivity|]. vm_compute. repeat split; reflexivity. Qed.
+
+(* int_failures_exact (pending since section 6): on the int lexeme class - the regenerated _INT_PATTERN - Python's int()
+   fails EXACTLY for a sign followed by a space and for more than 4300 digits; every other text of the class converts
+   (so "a segment that fails conversion makes the route not match" has exactly these two causes for int bindings) *)
+Theorem C05_int_failures_exact : assoc_type "int" TYPE_TABLE = Some (KInt, INT_RX) /\ forall s, rx_match INT_RX s = true ->
+  exists sg n ds, s = (sg ++ spaces n ++ ds)%string /\ is_sign sg /\ all_chr is_digit ds = true /\ ds <> "" /\
+    (py_int s = None <-> (sg <> "" /\ 0 < n) \/ MAX_INT_DIGITS < String.length ds).
+Proof. split; [exact int_rx_is_generated|exact int_failures_exact]. Qed.
+Print Assumptions C05_int_failures_exact.
+
+(* The captures.  Model/Backtrack.v is the search of a backtracking regex engine for the constructs used here: every way to
+   match a prefix, as the list of remainders in the order the engine tries them (a repetition first tries one more
+   iteration, an alternation its left branch; "x?" is "x|empty").  [bt_spec]: that list holds exactly the remainders after
+   a word of the language.  [match_groups]: a sequence of groups followed by the end of the subject; the span of every
+   group on the FIRST successful path - what a match object reports.  For every pattern the model accepts, every slash
+   mode and EVERY path: the spans of the groups of the assembled expression are the tokens the token-level matcher
+   (Model/Match.gmatch - greedy, leftmost element first, proved lexicographically maximal in C05_greedy) gives each
+   binding, and there is no match exactly when that matcher rejects.  The engine's search order itself is the modelled
+   part (Python's re is not verified here); the expression it runs on is compared with the real one on every run. *)
+Theorem C05_engine_enumerates : forall r, star_free_null r = true -> forall s r',
+  In r' (bt r s) <-> exists u, s = (u ++ r')%string /\ lang r u.
+Proof. exact bt_spec. Qed.
+Print Assumptions C05_engine_enumerates.
+
+Theorem C05_engine_captures : forall s p m path, parse_pattern s = Ok p ->
+  match_groups (groups m p) path =
+  match tokenise path with
+  | Some (ts, tr) =>
+      if mode_ok m p ts tr then
+        match gmatch (p_elems p) ts with Some caps => Some (spans tr (p_elems p) ts caps) | None => None end
+      else None
+  | None => None
+  end.
+Proof. exact engine_captures. Qed.
+Print Assumptions C05_engine_captures.
+
+Example C05_engine_example :
+  exists p, parse_pattern "/a/<x?int>/<rest+>" = Ok p /\
+  match_groups (groups MTolerant p) "/a//5/b/c/" =
+    Some [("/a//5/b/c/", "//5/b/c/"); ("//5/b/c/", "/b/c/"); ("/b/c/", "/"); ("/", "")] /\
+  match_groups (groups MTolerant p) "/a/b/c" = Some [("/a/b/c", "/b/c"); ("/b/c", "/b/c"); ("/b/c", ""); ("", "")] /\
+  match_groups (groups MStrict p) "/a//5/b" = None.
 Proof. eexists. split; [vm_compute; reflexivity|]. vm_compute. repeat split; reflexivity. Qed.
